@@ -300,8 +300,8 @@ static void mode_subsets(vh::Trace& tr, int stage, vh::Rng& rng) {
   std::vector<int> viewsList;
   if (stage >= 1) for (int v = 1; v <= 96; ++v) viewsList.push_back(v);
   else {
-    for (int v = 1; v <= 24; ++v) viewsList.push_back(v);
-    for (int v : { 32, 45, 64, 96 }) viewsList.push_back(v);
+    for (int v = 1; v <= 20; ++v) viewsList.push_back(v);
+    for (int v : { 24, 32, 64, 96 }) viewsList.push_back(v);
     viewsList.push_back(rng.range(25, 95));
   }
   const std::vector<Variant> sv = switch_variants(), ev = extra_variants();
